@@ -9,6 +9,20 @@ From SLX Require Import Base gen.Constants gen.WordUseTable TypeExpr Merge
   proofs.MergeEquivProofs proofs.MergeLatticeProofs proofs.MergeProofs proofs.MergeGeneralProofs.
 Open Scope N_scope.
 
+(* ---- the usage table generated from WordUse::merge IS the hand-written specification of compatible usages (Merge.v
+   wuse_join_spec: bytes below everything, numeric below unsigned / signed / address, unsigned below address, everything else
+   incomparable): compatible usages join to the more specific one, incompatible ones have no join.  Re-proved against the
+   table of every run; the searches evaluate the specification's join on the implementation's results. ---- *)
+Theorem C15_usage_table_is_spec : forall a b, wuse_merge a b = wuse_join_spec a b.
+Proof. intros a b. destruct a, b; reflexivity. Qed.
+
+Theorem C15_word_join_is_spec : forall x l, wordev_join_all x l = wordev_join_all_s x l.
+Proof.
+  intros x l. unfold wordev_join_all, wordev_join_all_s. generalize (Some x). induction l as [|y l IH]; intros a; cbn [fold_left]; [reflexivity|].
+  rewrite <- IH. f_equal. destruct a as [z|]; [|reflexivity]. unfold wordev_join_top, wordev_join, wordev_join_s.
+  rewrite C15_usage_table_is_spec. reflexivity.
+Qed.
+
 (* ---- usages: a bounded join-semilattice (idempotent, commutative, associative, top = conflict) ---- *)
 Theorem wuse_merge_semilattice :
   (forall a, wuse_merge a a = Some a)
@@ -144,3 +158,5 @@ Print Assumptions conflict_absorbs.
 Print Assumptions ctor_mismatch_conflicts.
 Print Assumptions contradiction_kept_outside_known.
 Print Assumptions C15_contradiction_refuted.
+Print Assumptions C15_usage_table_is_spec.
+Print Assumptions C15_word_join_is_spec.
